@@ -11,7 +11,7 @@
      remainder with its trailing zeros divided away, zero-padded to precision-trimmed digits.
    * Fixed8.String: sign, val/10^8, and for val%10^8 > 0 "." then 8-len(str) zeros then
      strings.TrimRight(str, "0").
-   It models the CORRECT behaviour for values in (-1,0) (known defect F13 is NOT modelled):
+   It models the CORRECT behaviour for values in (-1,0) (known defect F14 is NOT modelled):
    the unchanged FromString takes "negative" from bi.Sign() of the parsed integer part, which is 0
    for "-0", so "-0.5" parses as +0.5; the unchanged ToString prints dp.String() = "0" for them, so
    -0.5 prints as "0.5". Here "negative" = the integer part's text starts with '-', and to_string
